@@ -63,6 +63,20 @@ CHECKS = {
          "Trusted: Lean kernel, the byte-level model's tie to the code (differential, exhaustive small scope), str::from_utf8, i128::from_str and num-bigint's parser as modelled (their source was read; "
          "they are exercised by the same runs). PARTIAL: model=grammar for all lengths is not yet a theorem.",
          "Lean 4 model + grammar spec, exhaustive small-scope equivalence and differential correspondence; partial proof", "DESIGN.md §5 C05"),
+ "C04": ("Character-level Lean model of all renderings (dynamically_format_decimal with its three notations, format_full_scale and zero padding, {:e}/{:E}, dotless exponent form, "
+         "FullScaleFormatter, scientific, engineering, pad_integral) compared TEXT-EXACTLY with the real code; every produced text is read back by the grammar specification of C05 and by the real "
+         "parser and must give the same value, and the identical (int, scale) outside the exemptions the statement names; Display length bound. Kernel-checked so far: pad_integral without flags "
+         "adds only the sign; the round-trip theorems parse(render d) = d are listed as open in DESIGN.md. One known finding (plain notation with negative scale) and one fixed defect (scientific zero).",
+         "PARTIAL: the round trip is established per generated input through the verified-style chain model-text = impl-text and grammar-spec(text) = d, not yet as a Lean theorem for all decimals. "
+         "Trusted: Lean kernel, extractor, harness/driver, pad_integral model.",
+         "Lean 4 executable model (text-exact correspondence) + grammar-spec oracle; partial proof", "DESIGN.md §5 C04"),
+ "C16": ("Character-level Lean model of precision formatting ({:.N}, {:.Ne}, {:.NE}: round_ascii_digits with carry past nines, integer+fraction / no-integer layouts, zero right-padding with "
+         "FMT_MAX_INTEGER_PADDING, exponent adjustment) and of pad_integral (sign, '+', width, fill, alignment, '0'), compared text-exactly with the real code over every flag combination; the "
+         "unflagged text is read by the grammar specification and must equal the declarative rounding of C06/C07 with exactly N digits; flags must equal pad_integral applied to the implementation's "
+         "own unflagged text. Kernel-checked so far: pad_integral lemma; fmtPrec_eq_round is listed as open in DESIGN.md.",
+         "PARTIAL: agreement with the declarative rounding is decided per generated input by the Lean oracle (whose rounding spec is the one proved equal to with_scale_round in C06), not yet as a theorem "
+         "about the character-level model. Trusted: Lean kernel, extractor, harness/driver, pad_integral model.",
+         "Lean 4 executable model (text-exact correspondence) + declarative rounding oracle; partial proof", "DESIGN.md §5 C16"),
 }
 
 NOT_YET = "check under construction in this round (not yet claimed); see DESIGN.md §11 order of work"
